@@ -33,6 +33,12 @@ a CRC-valid data packet following a *damaged* token while the last good token wa
 whether the device transmits anything (C20).
 
 Deviation from DESIGN.md: none in substance; the "subsequence" oracle is strengthened by the must-deliver rule above.
+
+Known finding on the unchanged tree (findings/C16.md): mechanism `bytes_dropped_mid_packet_when_space_short` - the
+DESIGN suspect is real: the space test is re-evaluated per byte, so a valid packet arriving with < mps+L-1 free bytes
+is committed cut short / with holes.  The classifier reports that mechanism only if the whole output is an in-order
+subsequence of the candidates' bytes (anchored at the `first` flags) and every partially delivered candidate had
+< mps+L-1 free bytes (lower bound) when its data packet started; anything else gets another mechanism name.
 """
 import bisect
 
@@ -56,7 +62,7 @@ REQUIRED_EVENTS = ["data_packets_sent", "candidates", "candidates_delivered_whol
 ASSUMPTIONS = ["valid data packets longer than max_packet_size are not generated (illegal host behaviour)",
                "a CRC-valid data packet after a damaged token is unjudged except for atomicity and flags",
                "a candidate must be delivered when the buffer had >= max_packet_size free bytes at the start of its OUT token",
-               "delivery time is not constrained; each session ends with a drain of at most 40 + 4*buffer cycles of valid being low"]
+               "delivery time is not constrained; each session ends with a drain (consumer ready until valid has been low for 12 cycles, at most 60 + 6*buffer cycles)"]
 
 MPS_CHOICES = [1, 2, 3, 4, 8, 8, 13, 16, 16, 32, 64]
 
